@@ -95,6 +95,12 @@ def hand_items(ids):
       [[("deny", None)]])
     S("HMissing", [Field("a", I("u8"), [[("missing", f())]]), Field("b", T.String), Field("c", T.Bool, [[("missing", f())]])],
       [[("where_uerr",)]])
+    S("HMissingRenamed", [Field("good_boy", I("u8"), [[("missing", f())]]), Field("catto", T.String, [[("rename", "cat"), ("missing", f())]]),
+                          Field("plain_one", T.Bool), Field("HTTPPort", I("u16"), [[("missing", f())], [("default", None)]])],
+      [[("rename_all", "camelCase")], [("where_uerr",)]])
+    E("HMissingVariant", [Variant("Big", [Field("side_length", I("u8"), [[("missing", f())]]), Field("DeltaX", T.Bool)], [[("rename_all", "lowercase")]]),
+                          Variant("Small", [Field("side_length", I("u8")), Field("other_one", T.String, [[("missing", f())]])])],
+      [[("tag", "kind"), ("rename_all", "camelCase")], [("where_uerr",)]])
     m1, m2, m3 = f(), f(), f()
     S("HMap", [Field("a", T.W(I("u8")), [[("map", m1, I("u8"))]]),
                Field("b", T.W(T.String), [[("map", m2, T.String), ("default", None)]]),
@@ -677,6 +683,21 @@ def skipped_names(t):
     return out
 
 
+def corrupt_all(p, rng):
+    """every scalar leaf replaced by a value of another kind (containers and keys kept): many faults at once"""
+    if isinstance(p, list):
+        return [corrupt_all(x, rng) for x in p]
+    if isinstance(p, dict) and "m" in p:
+        return {"m": [[k, corrupt_all(v, rng)] for k, v in p["m"]]}
+    if isinstance(p, str):
+        return rng.choice([{"i": "5"}, True, None, [], {"m": []}])
+    if isinstance(p, bool):
+        return rng.choice([{"i": "1"}, "true", [], {"m": []}])
+    if p is None:
+        return rng.choice([{"i": "0"}, "null", []])
+    return rng.choice(["str", True, [], {"m": []}, {"f": "3ff8000000000000"}])
+
+
 def gen_payloads(entry, rng, n, max_faults=3):
     """n payloads for a type: valid instances with 0..max_faults mutations, plus shape-blind values"""
     out = []
@@ -686,6 +707,10 @@ def gen_payloads(entry, rng, n, max_faults=3):
             out.append((copy.deepcopy(rng.choice(WRONG)) if rng.random() < 0.7 else gen_json(rng), -1))
             continue
         p = gen_valid(entry.ty, rng)
+        if rng.random() < 0.12:
+            q = corrupt_all(p, rng)
+            out.append((q, sum(1 for _ in positions(q))))
+            continue
         k = rng.choice([0, 0, 1, 1, 1, 2, 2, 3, max_faults])
         for _ in range(k):
             p = mutate_once(p, rng, extra)
